@@ -50,6 +50,8 @@ pub fn run(ctx: &mut Ctx, suite: &str) {
         "c13" => c12::run_shutdown(ctx),
         "c13e" => c12::run_shutdown_emfile(ctx),
         "c13p" => c12::run_permit(ctx),
+        "c13w" => c12::run_c13w(ctx),
+        "c11w" => c06::run_c11w(ctx),
         "c10r" => c12::run_upload_revoked(ctx),
         "c20w" => c04::run_c20w(ctx),
         "c01l" => c04::run_c01l(ctx),
